@@ -19,8 +19,9 @@ CACHE = os.path.join(coqrun.VERIF, "linkcache")   # outside coq/ (which is bound
 
 V, F, I, M, VZ, B = py2coq.V, py2coq.F, py2coq.I, py2coq.M, py2coq.VZ, py2coq.B
 
-# module -> configuration.  `functions`: translated in this order (callees first).  `sigs`: argument types where the
-# defaults of py2coq.DEFAULT_ARG_TYPES do not apply.  `files`: link files (compiled in this order).
+# module -> configuration.  `functions`: translated in this order (callees first).  `sigs`: per function: `args` argument types where
+# the defaults of py2coq.DEFAULT_ARG_TYPES do not apply, `fuel` the iteration budget of its `while` loops (an int expression over the
+# arguments), `opaque` helpers that become function parameters (see py2coq.py).  `files`: link files (compiled in this order).
 MODULES = {
     "distances": {
         "path": "umap/distances.py",
@@ -53,6 +54,20 @@ MODULES = {
         "eval": "E_grads.v",
         "deps": ["thm/T_link_arr.v", "model/M_grads.v", "model/V_grads.v"],
     },
+}
+
+# umap/sparse.py (C13).  The merge kernels are `while` loops over two cursors: the iteration budget is the sum of the two row
+# lengths (each iteration advances a cursor).  arr_union / arr_intersect (np.sort / np.concatenate / boolean masks) are not
+# translated: they are function parameters of the generated definitions ("opaque", see py2coq.py).
+_SPARSE_ARGS = {"ind1": VZ, "data1": V, "ind2": VZ, "data2": V, "n_features": I, "p": F}
+_SPARSE_OPAQUE = {"arr_union": ([VZ, VZ], VZ), "arr_intersect": ([VZ, VZ], VZ)}
+_SPARSE_FNS = ["sparse_sum", "sparse_diff", "sparse_mul", "sparse_euclidean", "sparse_manhattan", "sparse_chebyshev", "sparse_minkowski",
+               "sparse_hamming", "sparse_canberra", "sparse_bray_curtis", "sparse_jaccard", "sparse_matching", "sparse_dice",
+               "sparse_kulsinski", "sparse_rogers_tanimoto", "sparse_sokal_michener", "sparse_sokal_sneath", "sparse_hellinger"]
+MODULES["sparse"] = {
+    "path": "umap/sparse.py", "functions": _SPARSE_FNS,
+    "sigs": {f: {"args": _SPARSE_ARGS, "fuel": "ind1.shape[0] + ind2.shape[0]", "opaque": _SPARSE_OPAQUE} for f in _SPARSE_FNS},
+    "files": ["L_sparse.v"], "deps": ["model/M_sparse.v"],
 }
 
 
